@@ -171,7 +171,13 @@ def accum(eng, res, P: Pick, rule="R-ACCUM"):
     if ok:
         a = augs[0]
         in_loop = lp in cfg.enclosing_loops(a.stmt)
-        w = strip_attr(a.value, "weight")
+        av = a.value
+        if isinstance(av, ast.Name) and flow.is_local(av.id):
+            # a temporary holding the weight (`m = x.weight; acc += m`): follow its single definition
+            ds = [d for d in flow.reaching(av.id, a.nid)]
+            if len(ds) == 1 and ds[0].kind == "assign" and ds[0].value is not None:
+                av = ds[0].value
+        w = strip_attr(av, "weight")
         same = w is not None and isinstance(yv, ast.Name) and isinstance(w, ast.Name) and w.id == yv.id and {id(d) for d in flow.reaching(w.id, a.nid)} == {id(d) for d in flow.reaching(yv.id, yn)}
         every = cfg.must_pass(a.nid, yn)
         # once per iteration: from the aug, the aug is not reachable again without passing the loop head
